@@ -40,8 +40,8 @@ Build and test exactly like this (pinned configuration; use at most 4 build jobs
     cd {work}/wt-{pid} && cmake -G Ninja -S . -B _build -DCMAKE_BUILD_TYPE=RelWithDebInfo > /dev/null && cmake --build _build -j4 2>&1 | tail -3
     ctest --test-dir _build -j4 --timeout 900 2>&1 | tail -5          # must say 100% tests passed ... out of 82
 Then DEMONSTRATE the breakage against the real code: a small program or RIDDLE file plus the command that runs it and the output showing
-the property violated with your change, and the same command's output on the unchanged code (use `git stash` / `git stash pop`, or a second
-build directory) showing the property holds there. You may write a small C++ driver linked against the built libraries (_build/lib) or use
+the property violated with your change, and the same command's output on the unchanged code (save your change with `git diff > ../out-{pid}/patch.diff`, `git checkout -- .`, rebuild, run, then `git apply` it again - do NOT use
+`git stash`: the stash is shared with other worktrees of this repository and other people work in those) showing the property holds there. You may write a small C++ driver linked against the built libraries (_build/lib) or use
 the `oRatio` executable (_build/bin/oRatio <input.rddl> <output.json>; look at main.cpp and the tests/ directories for usage).
 If your first idea is killed by the test suite or you cannot demonstrate it, try another idea; spend your effort on making one change solid.
 If you have time left, produce a second, mechanistically different change the same way (suffix its files with 2).
